@@ -117,6 +117,8 @@ func (d mutDesc) String() string {
 		return fmt.Sprintf("insert %+q at offset %d", caseRunes[d.B], d.A)
 	case "case-line":
 		return fmt.Sprintf("line %d := %+q + its first %d bytes", d.A, caseRunes[d.C], d.B)
+	case "struct-field":
+		return fmt.Sprintf("header field #%d at offset %d := boundary value #%d (structure-aware)", d.A, d.C, d.B)
 	case "guided-set":
 		return fmt.Sprintf("set[%d]=%#02x (next to an occurrence of an extracted name/version)", d.A, d.B)
 	case "guided-delete":
@@ -339,6 +341,20 @@ func enumerate(seed []byte, tier string, from int, anchors func() []string, fn f
 				if !emit(mutDesc{Op: "setbyte", A: i, B: int(c)}, func() []byte {
 					buf = append(buf[:0], seed...)
 					buf[i] = c
+					return buf
+				}) {
+					return seq
+				}
+			}
+		}
+	}
+	// structure-aware: every size/offset/count field of the ELF / PE / Mach-O header tables := each boundary value
+	if n >= 32 {
+		for fi, f := range structFields(seed) {
+			for vi, v := range fieldValues(f.get(seed), n, f.width) {
+				if !emit(mutDesc{Op: "struct-field", A: fi, B: vi, C: f.off}, func() []byte {
+					buf = append(buf[:0], seed...)
+					f.put(buf, v)
 					return buf
 				}) {
 					return seq
